@@ -34,7 +34,7 @@ RespTimeout == 5000
 
 H0 == [ urgent |-> FALSE, family |-> "", done |-> FALSE,
         cmd |-> <<>>, tg |-> <<>>, rq |-> <<>>, svc |-> <<>>,
-        inst |-> <<>>, oldlb |-> {}, rlb |-> <<>>, pauseSeq |-> 0, drn |-> {},
+        inst |-> <<>>, oldlb |-> {}, rlb |-> <<>>, pauseSeq |-> 0, relSeq |-> 0, drn |-> {},
         mem |-> <<>>,        \* C12: configurations observed in memory, in order: <<seq, cfg>>
         running |-> {},      \* commands called and not yet returned
         since |-> 0 ]        \* seq of the oldest memory observation a snapshot written now may still legitimately show
@@ -188,10 +188,14 @@ UpdPreClaim(h, e) == IF ~Has(h.rq, e.r) THEN h ELSE [h EXCEPT !.rq[e.r].lb = e.l
 \* the moment the request read the pause gate as open: getWaitState returned "running", or the release channel fired
 UpdGate(h, e) ==
   IF ~Has(h.rq, e.r) THEN h
-  ELSE IF e.ev = "y_wait_released" \/ e.state = 0 THEN [h EXCEPT !.rq[e.r].gateSeq = e.seq]
+  \* a held request's gate opens when its release channel is closed, i.e. at the resume (or stop) that ended the pause -
+  \* the waiter may notice it much later
+  ELSE IF e.ev = "y_wait_released" THEN [h EXCEPT !.rq[e.r].gateSeq = IF h.relSeq # 0 THEN h.relSeq ELSE e.seq]
+  ELSE IF e.state = 0 THEN [h EXCEPT !.rq[e.r].gateSeq = e.seq]
   ELSE h
 UpdRemove(h, e) == [h EXCEPT !.inst = Put(@, e.svc, 0)]
-UpdPauseState(h, e) == IF e.state \in {1, 2} THEN [h EXCEPT !.pauseSeq = e.seq] ELSE h
+UpdPauseState(h, e) == LET g == IF e.state \in {0, 2} THEN [h EXCEPT !.relSeq = e.seq] ELSE h
+                       IN IF e.state \in {1, 2} THEN [g EXCEPT !.pauseSeq = e.seq] ELSE g
 UpdClaim(h, e) ==
   IF ~Has(h.rq, e.r) THEN h
   ELSE LET r == h.rq[e.r]
@@ -312,7 +316,12 @@ Explained(h, r) ==
   \/ r.abort # 0
   \/ r.how = "cancelled" /\ r.endT = r.begT + RespTimeout
   \/ \E k \in DOMAIN h.cmd :
-        /\ r.tg \in h.cmd[k].prev
+        /\ \/ r.tg \in h.cmd[k].prev
+           \* a pause / stop issued while a redeploy of the service was in progress may find the new group installed already
+           \/ /\ h.cmd[k].kind \in DrainKinds
+              /\ \E d \in DOMAIN h.cmd : /\ h.cmd[d].kind \in DeployKinds /\ h.cmd[d].svc = h.cmd[k].svc
+                                          /\ r.tg \in h.cmd[d].targets /\ h.cmd[d].call < h.cmd[k].call
+                                          /\ (h.cmd[d].ret = 0 \/ h.cmd[d].ret > h.cmd[k].call)
         /\ h.cmd[k].kind \in DrainKinds \/ h.cmd[k].ret # 0
         /\ IF r.how = "closed" THEN r.endT = Max(h.cmd[k].s, r.begT) \/ r.endT = h.cmd[k].s + h.cmd[k].drto
            ELSE r.endT = h.cmd[k].s + h.cmd[k].drto
